@@ -7,6 +7,8 @@ import (
 	"go/types"
 	"strings"
 
+	"golang.org/x/tools/go/ssa"
+
 	"verif/checker/core"
 )
 
@@ -1163,5 +1165,74 @@ func c02r9(rc *core.RC) {
 	}
 	if n < 2 {
 		rc.Unknown("decoder.numberDecoder/methods", token.NoPos, "found %d of Decode/DecodeStream on numberDecoder", n)
+	}
+}
+
+// ---- C02.R10 a map value is decoded into a fresh zero value ----
+
+// encoding/json decodes every map value into a new zero element and then stores it under the key: a key that is
+// already in the map (a prefilled destination, a duplicate key in the object) is REPLACED, never merged. The map
+// decoder therefore has to hand its value decoder memory that comes from unsafe_New, not the element slot the runtime
+// returns for the key (mapassign), where the old element lives.
+func c02r10(rc *core.RC) {
+	p := rc.P
+	of := core.NewOriginFinder(p)
+	n := 0
+	for _, fn := range p.ModuleFuncs() {
+		if fn.Pkg == nil || fn.Pkg.Pkg.Path() != core.PkgPaths["decoder"] || fn.Signature.Recv() == nil || !strings.HasSuffix(fn.Signature.Recv().Type().String(), "mapDecoder") {
+			continue
+		}
+		if fn.Name() != "Decode" && fn.Name() != "DecodeStream" {
+			continue
+		}
+		k := 0
+		for _, b := range fn.Blocks {
+			for _, ins := range b.Instrs {
+				c, ok := ins.(*ssa.Call)
+				if !ok || !c.Call.IsInvoke() || (c.Call.Method.Name() != "Decode" && c.Call.Method.Name() != "DecodeStream") {
+					continue
+				}
+				// which decoder: d.valueDecoder or d.keyDecoder
+				role := ""
+				if u, isLoad := c.Call.Value.(*ssa.UnOp); isLoad {
+					if fa, isFA := u.X.(*ssa.FieldAddr); isFA {
+						role = core.FieldNameOf(fa)
+					}
+				}
+				if !strings.HasSuffix(role, "valueDecoder") && !strings.HasSuffix(role, "keyDecoder") {
+					continue
+				}
+				n++
+				k++
+				rc.Touch(core.SSAName(fn))
+				dst := c.Call.Args[len(c.Call.Args)-1]
+				var bad []string
+				fresh := false
+				for _, o := range of.Origins(dst) {
+					if o.Kind == "call" && strings.HasSuffix(o.Name, "unsafe_New") {
+						fresh = true
+						continue
+					}
+					if o.Kind == "const" {
+						continue
+					}
+					bad = append(bad, o.String())
+				}
+				what := "value"
+				if strings.HasSuffix(role, "keyDecoder") {
+					what = "key"
+				}
+				key := fmt.Sprintf("%s/%s-destination#%d fresh-zero-value", core.SSAName(fn), what, k)
+				rc.Check(fresh && len(bad) == 0, key, core.SSAPos(c), "the map %s is decoded into memory from unsafe_New%s", what, func() string {
+					if len(bad) == 0 {
+						return ""
+					}
+					return " — but also into " + strings.Join(bad, ", ") + ": when the key is already in the map its old element is what the decoder starts from, so {\"k\":7,\"k\":null} into map[string]int keeps 7 and a struct element keeps the fields the new value does not mention (encoding/json replaces the element)"
+				}())
+			}
+		}
+	}
+	if n < 4 {
+		rc.Unknown("decoder.mapDecoder/element-decodes", token.NoPos, "found %d key/value decode calls in mapDecoder.Decode and DecodeStream (confirmed: 4)", n)
 	}
 }
